@@ -56,7 +56,7 @@ template<typename T, typename SK> void quantile_family_readout(J& j, const SK& s
   std::vector<double> ranks; std::vector<T> qs;
   for (size_t i = 0; i < 5; ++i) { const T& probe = items[(items.size() - 1) * i / 4]; ranks.push_back(s.get_rank(probe, true)); ranks.push_back(s.get_rank(probe, false)); }
   for (double q : {0.0, 0.1, 0.5, 0.9, 1.0}) qs.push_back(T(s.get_quantile(q, true)));
-  j.arr("ranks", ranks).arr("quantiles", qs);
+  j.arr("q_ranks", ranks).arr("q_quantiles", qs);
 }
 
 template<typename T, typename D> void quantile_decode_vs_api(const std::string& fam, const D& d, const std::vector<IW<T>>& api, const std::string& ctx) {
@@ -355,7 +355,7 @@ template<typename W> struct CmFam {
     j.arr("cells", cells);
     std::vector<W> est;
     for (uint64_t i = 0; i < 12; ++i) { est.push_back(s.get_estimate(uint64_t(i * 7))); est.push_back(s.get_estimate(int64_t(i) - 6)); }
-    j.arr("estimates", est);   // row seeds come from std::default_random_engine: same-platform self-consistency only
+    j.arr("q_estimates", est);   // row seeds come from std::default_random_engine: same-platform self-consistency only
     return j.done();
   }
   static void check(const SK& s, const std::string& img, const std::string& ctx) {
